@@ -11,7 +11,8 @@ try:
     floors = json.load(open(path))
 except (OSError, ValueError):
     floors = {}
-for f in sorted(glob.glob(os.path.join(ROOT, "evidence", "C*.json"))):
+EVDIR = os.environ.get("VERIF_EVIDENCE_DIR") or os.path.join(ROOT, "evidence")     # a thorough pass may have written to a scratch directory
+for f in sorted(glob.glob(os.path.join(EVDIR, "C*.json"))):
     ev = json.load(open(f))
     cov = ev["coverage"]
     if ev["violations"]:
